@@ -6,9 +6,10 @@ ENGINE = "connmux"
 PROPS = {"C11": "model_checking"}
 
 PROP_INVS = {
-    "C11": ["C11_NextAsFresh", "C11_KafkaErrKeepsOpen", "C11_ErrorReported", "C11_FailedStaysFailed", "C11_NoSpuriousNoProgress"],
-    "C06": ["C06_OwnResponse"],
-    "C17": ["C17_CutIsError", "C17_NoPanicNoHang", "C11_FailedStaysFailed", "C06_OwnResponse"],
+    "C11": ["C11_NextAsFresh", "C11_KafkaErrKeepsOpen", "C11_ErrorReported", "C11_FailedStaysFailed", "C11_NoSpuriousNoProgress",
+            "C11_TransportErrorCloses", "C11_StallIsError"],
+    "C06": ["C06_OwnResponse", "C06_UniqueIds"],
+    "C17": ["C17_CutIsError", "C17_NoPanicNoHang", "C11_FailedStaysFailed", "C06_OwnResponse", "C11_TransportErrorCloses"],
 }
 MC_INVS = {
     "C11": (["C11_OtherErrCloses", "C11_NeverMisaligned", "C11_NoSpuriousNoProgress"], ["C11_KafkaErrKeeps", "C11_ClosedStaysFailed"]),
@@ -65,6 +66,17 @@ def c11_scripts(tier):
                     # the same request signature twice: the fault applies to the first only, give the second its own arg
                     continue
                 out.append({"id": sid, "kind": "c11", "versions": vs, "ops": ops, "report": field != "metapartition"})
+    # the response stalls in the middle (after the size and correlation id were read) until the deadline expires,
+    # then the rest arrives: the operation fails and the Conn is not used again
+    for (k1, a1, field, vs, tag) in op1_variants():
+        for stall in (8, 9, 14, 30, 100000):
+            for (k2, a2), sl in (((("offsetAt", 5)), 0), (("partitions", 3), 250), (("lastOffset", 0), 250)):
+                if k1 == k2:
+                    continue
+                out.append({"id": "c11-stall-%s-b%d-%s-s%d" % (tag, stall, k2, sl), "kind": "c11", "versions": vs, "report": False, "ops": [
+                    {"o": 1, "g": 1, "kind": k1, "arg": a1, "deadlineMs": 40, "fault": {"stall": stall, "stallMs": 200}},
+                    {"o": 2, "g": 1, "kind": k2, "arg": a2, "sleepMs": sl},
+                    {"o": 3, "g": 1, "kind": "brokers", "arg": 0}]})
     # two broker errors in a row, then a probe
     for (k1, a1, field, vs, tag) in op1_variants():
         if k1 in ("produce", "fetch", "lastOffset"):
@@ -128,6 +140,19 @@ def c06_scripts(seed, n):
                 v["fault"] = {"err": rng.choice([6, 3, 1]), "field": "partition"}
         out.append({"id": "c06-%d-%d" % (seed, k), "kind": "c06", "versions": vers(produce=rng.choice([2, 3, 7]), fetch=rng.choice([2, 5, 10]), metadata=rng.choice([1, 6])),
                     "ops": ops, "report": False, "codec": rng.choice([0, 0, 1, 2, 3, 4])})
+    # writers queueing up: one caller stays inside doRequest (write lock held) while the others arrive, so that
+    # several are blocked on the write lock at once; answers are delayed differently
+    for k in range(max(4, n // 8)):
+        ng = rng.randint(3, 6)
+        ops = [{"o": 1, "g": 1, "kind": "offsetAt", "arg": 11, "holdReqMs": rng.choice([20, 40])}]
+        args = rng.sample(range(0, 11), ng)
+        for g in range(2, ng + 1):
+            kind = rng.choice(["offsetAt", "offsetAt", "partitions"])
+            op = {"o": g, "g": g, "kind": kind, "arg": args[g - 2] if kind == "offsetAt" else (g % 6) + 1, "sleepMs": rng.choice([3, 5, 8])}
+            if rng.random() < 0.5:
+                op["fault"] = {"delayMs": rng.choice([2, 10, 25])}
+            ops.append(op)
+        out.append({"id": "c06-queue-%d-%d" % (seed, k), "kind": "c06", "versions": vers(metadata=rng.choice([1, 6])), "ops": ops, "report": False, "codec": 0})
     return out
 
 
